@@ -23,6 +23,8 @@ func init() {
 			"C09.R3 MPT: encoded stream size bounded by streamLimit(ctx)",
 			"C09.R4 liveness: every ResourceLimits field is compared; running totals are loop-carried",
 			"C09.R6 MPT: image descriptors pass the image-limit validator where they are built (or in every caller)",
+			"C09.R7 siblings (= C16.R7): every filter value built in pkg/filter carries the configured decode limit",
+			"C09.R8 flow (= C08.R1i): the depth a MaxRecursionDepth guard decides on grows around every recursion cycle and is not restarted by the function's own depth-less wrapper",
 			"C09.R5 range: sized allocations in pkg/filter are bounded (by data in memory or the decode limit) on every way in",
 		},
 		Assumptions: []string{"io.CopyN / io.LimitedReader bound what they copy"},
@@ -82,6 +84,10 @@ func runC09(c *Ctx) {
 	r.MinInst["C09.R5"] = 3
 	checkSizedAllocationsBounded(c)
 	r.MinInst["C09.R6"] = 1
+	r.MinInst["C09.R7"] = 7
+	checkFilterValuesCarryLimitAs(c, "C09.R7")
+	r.MinInst["C09.R8"] = 30
+	runC08R1iAs(c, newGuardSet(c.P), "C09.R8")
 	checkValidatedConstructors(c)
 	// ---- R1 (a): limit-less decoders use the stream's own limit
 	for _, fid := range []string{"pkg/pdfcpu/types.(*StreamDict).Decode", "pkg/pdfcpu/types.(*StreamDict).DecodeLength"} {
